@@ -351,6 +351,10 @@ ITER_POST = [
     ("ok-false-when-rate-limited",
      "implies(%s and %s and ghost('add_calls') == head_add_calls, not ghost('last_ok_flag'))" % (EVENT_IT, DONE)),
     ("event-stored-at-most-once", "ghost('add_calls') <= head_add_calls + 1"),
+    # C06: the OK of a refused event names that event or nothing -- never another (e.g. an earlier, stored) event
+    ("refused-ok-names-no-other-event",
+     "implies(%s and ghost('n_ok') == head_n_ok + 1 and ghost('add_calls') == head_add_calls + 1 and ghost('add_outcome') == 2, "
+     "ghost('last_ok_id') == '' or ghost('last_ok_id') == jstr(jget(jitem(message, 1), 'id')))" % EVENT_IT),
     # only EVENT messages are answered with OK, only AUTH setup sends AUTH frames
     ("no-ok-without-event", "implies(not (%s), ghost('n_ok') == head_n_ok)" % EVENT_IT),
     ("no-auth-frame-in-loop", "ghost('n_auth') == head_n_auth"),
@@ -426,7 +430,7 @@ start_client.obligation_props = [
     # C03: an event storage refused (forged, unauthentic) is never acknowledged with OK=true
     ("iter:ok-false-when-storage-refuses", ["C06", "C03"]), ("iter:ok-flag-is-storage-result", ["C06", "C03"]),
     ("iter:one-ok-per-event", ["C06"]), ("iter:at-most-one-ok", ["C06"]), ("iter:ok-", ["C06"]), ("iter:event-stored-at-most-once", ["C06"]),
-    ("iter:no-ok-without-event", ["C06"]),
+    ("iter:no-ok-without-event", ["C06"]), ("iter:refused-ok-names-no-other-event", ["C06"]),
     ("iter:refused-req", ["C13"]), ("iter:accepted-req", ["C13"]), ("iter:accepted-req-has-a-sender", ["C13"]), ("iter:req-reaches", ["C13"]), ("iter:subscribe-only-for-req", ["C13"]),
     ("iter:identity-unchanged", ["C15"]), ("iter:authenticate-", ["C15"]), ("inv:challenge-fixed", ["C15"]), ("inv:one-challenge", ["C15"]),
     ("post:one-challenge", ["C15"]),
